@@ -206,7 +206,11 @@ def run(rep):
         r = mutators.norm_required(sem.nt(ps.ret))
         rets.add(r)
     want_full = 'byorder[len(R)].get(EACH(R + (provided,))).get(name)'
-    ok = want_full in rets and rets <= {want_full, 'None', 'byorder[len(R)].get(name)'}
+    # the same descent written as "along R, then provided"
+    split_full = {'byorder[len(R)].get(EACH(R)).get(provided).get(name)',
+                  'byorder[len(R)].get(provided).get(name)'}
+    ok = (want_full in rets and rets <= {want_full, 'None', 'byorder[len(R)].get(name)'}) \
+        or (split_full <= rets and rets <= split_full | {'None'})
     rep.check('R09.2', 'BaseAdapterRegistry._find_leaf', ok,
               'returns byorder[len(R)] descended along R + (provided,) then '
               '.get(name), or None when a level is missing: %s' % sorted(rets),
